@@ -550,6 +550,16 @@ class KNode:
             c = Node(name="c", anyv=a)
             b.anyv = c
             a.anyv = b
+        elif kind == "list_in_itself":
+            a.kids.append(a.kids)  # builtin repr: [[...]]
+        elif kind == "dict_in_itself":
+            a.table["me"] = a.table
+        elif kind == "list_in_itself_long":
+            a = Node(name="n" * 120)  # long enough for repr() itself to switch to the multi-line layout
+            a.kids.append(a.kids)
+        elif kind == "list_dict_cycle":
+            a.kids.append(a.table)
+            a.table["k"] = a.kids
         elif kind == "missing_values":
             a = Node()
         elif kind == "bound_method_of_self":
@@ -558,7 +568,8 @@ class KNode:
             a.anyv = Node(name="o").with_name
         return a
 
-    for kind in ("direct", "in_list", "in_any_list", "in_dict", "mutual", "mutual_keyed", "triangle", "missing_values",
+    for kind in ("direct", "in_list", "in_any_list", "in_dict", "mutual", "mutual_keyed", "triangle", "list_in_itself", "dict_in_itself",
+                 "list_in_itself_long", "list_dict_cycle", "missing_values",
                  "bound_method_of_self", "bound_method_of_other"):
         for kwargs in ({}, {"indent": True}, {"indent": False}, {"compact": True}):
             C.inc("states")
@@ -573,7 +584,7 @@ class KNode:
             except BaseException as e:
                 C.viol(violation(PROP, {"part": "selfref", "kind": "repr_raised", "structure": kind, "error": type(e).__name__},
                                  {"error": repr(e)[:200], "kwargs": kwargs}, {"part": "selfref", "structure": kind, "kwargs": kwargs}))
-    C.sample({"part": "selfref", "structures": 10})
+    C.sample({"part": "selfref", "structures": 14})
     return C.rec
 
 
